@@ -14,14 +14,14 @@ import (
 )
 
 var c03Forced = []string{"group.1col", "group.2col", "group.3col", "group.nullkey", "group.mixedkey", "having", "having.key", "where", "star", "agg.COUNT*", "agg.COUNT", "agg.SUM", "agg.MIN", "agg.MAX", "agg.AVG",
-	"agg.samefn-diffcol", "agg.samefn-samecol", "agg.nullable", "whole.where", "whole.nowhere", "whole.empty", "whole.union", "whole.limit", "table.empty", "from.alias", "reexec.vars", "agg.groupcol", "naming.alias-unqualified", "naming.table-qualified", "agg.like-named", "star.only", "naming.mixed-spelling", "column.nonword", "column.table-prefixed", "agg.huge", "having.alias"}
+	"agg.samefn-diffcol", "agg.samefn-samecol", "agg.nullable", "whole.where", "whole.nowhere", "whole.empty", "whole.union", "whole.limit", "table.empty", "from.alias", "reexec.vars", "agg.groupcol", "naming.alias-unqualified", "naming.table-qualified", "agg.like-named", "star.only", "naming.mixed-spelling", "column.nonword", "column.table-prefixed", "agg.huge", "having.alias", "agg.COUNT1"}
 
 func init() {
 	fw.Register(&fw.Prop{
 		ID:    "C03",
 		Title: "GROUP BY partitions rows; aggregates cover exactly their group and honour WHERE",
 		Level: "exploration",
-		Rule: "HAVING naming an aggregate of the select list by its alias. whole-number members around and beyond 2^63 (exact sums); column names that begin with the table's name. GROUP BY spelling the grouping columns the other way than the select list; column names that are not plain words. naming modes (alias, alias-unqualified, table-qualified); aggregates of grouping columns and over like-named nested members; groups shown by `*` alone; re-execution across an execution that fails after its first aggregates. whole-table aggregates may carry a LIMIT that does not cut; a share of the cases reads an aliased table with every column named by its qualified source name; phase 'reexec': one Query executed five times while a variable its WHERE reads changes, each execution compared with a fresh query. each case = random table (string/number/boolean/nullable grouping columns, numeric columns holding dyadic rationals k/4 so that every sum is exact) x GROUP BY over 1..3 columns x optional WHERE (C01 grammar) x optional HAVING over aggregates/key columns " +
+		Rule: "COUNT of a constant. HAVING naming an aggregate of the select list by its alias. whole-number members around and beyond 2^63 (exact sums); column names that begin with the table's name. GROUP BY spelling the grouping columns the other way than the select list; column names that are not plain words. naming modes (alias, alias-unqualified, table-qualified); aggregates of grouping columns and over like-named nested members; groups shown by `*` alone; re-execution across an execution that fails after its first aggregates. whole-table aggregates may carry a LIMIT that does not cut; a share of the cases reads an aliased table with every column named by its qualified source name; phase 'reexec': one Query executed five times while a variable its WHERE reads changes, each execution compared with a fresh query. each case = random table (string/number/boolean/nullable grouping columns, numeric columns holding dyadic rationals k/4 so that every sum is exact) x GROUP BY over 1..3 columns x optional WHERE (C01 grammar) x optional HAVING over aggregates/key columns " +
 			"x select list mixing key columns, `*` and 2..5 aggregates (incl. the same function on different columns and twice on one column); or, without GROUP BY, an all-aggregate select list with/without WHERE (incl. WHERE keeping nothing). " +
 			"The real output must equal the reference group-by as a sequence (groups in first-appearance order, members in source order, bit-exact aggregates); conservation sum(COUNT(*)) = |filtered rows| is checked directly; every case is executed 3 (thorough 8) times on fresh copies and all runs must be identical. " +
 			"Non-trivial = at least 2 output groups, or a whole-table aggregate over a WHERE that keeps a proper non-empty subset; distinct = distinct (table, SQL).",
@@ -149,7 +149,7 @@ func c03Group(c *fw.Case) {
 		feats = append(feats, "naming.table-qualified")
 	}
 	qualify := func(aggSQL string) string {
-		if qualName == "" || strings.HasSuffix(aggSQL, "(*)") {
+		if qualName == "" || strings.HasSuffix(aggSQL, "(*)") || strings.HasSuffix(aggSQL, "(1)") {
 			return aggSQL
 		}
 		return strings.Replace(aggSQL, "(", "("+qualName+".", 1)
@@ -195,7 +195,7 @@ func c03Group(c *fw.Case) {
 		}
 	}
 	// aggregates
-	aggPool := []ref.Agg{{Fn: "COUNT", Col: "*"}, {Fn: "COUNT", Col: "v1"}, {Fn: "SUM", Col: "v1"}, {Fn: "SUM", Col: "v2"}, {Fn: "MIN", Col: "v1"}, {Fn: "MIN", Col: "v2"},
+	aggPool := []ref.Agg{{Fn: "COUNT", Col: "*"}, {Fn: "COUNT", Col: "1"}, {Fn: "COUNT", Col: "v1"}, {Fn: "SUM", Col: "v1"}, {Fn: "SUM", Col: "v2"}, {Fn: "MIN", Col: "v1"}, {Fn: "MIN", Col: "v2"},
 		{Fn: "MAX", Col: "v1"}, {Fn: "MAX", Col: "v2"}, {Fn: "AVG", Col: "v1"}, {Fn: "AVG", Col: "v2"}, {Fn: "SUM", Col: "w1"}, {Fn: "MIN", Col: "w1"}, {Fn: "MAX", Col: "w1"}, {Fn: "COUNT", Col: "rid"}}
 	var aggs []ref.Agg
 	na := 2 + c.Intn(4)
@@ -260,6 +260,9 @@ func c03Group(c *fw.Case) {
 		feats = append(feats, "agg."+a.Fn)
 		if a.Col == "*" {
 			feats = append(feats, "agg.COUNT*")
+		}
+		if a.Col == "1" {
+			feats = append(feats, "agg.COUNT1")
 		}
 		if a.Col == "w1" {
 			feats = append(feats, "agg.nullable")
